@@ -30,6 +30,7 @@ func vShapePlain(capacity, pad, removal int) *vWorld {
 	W.create([]int{cA, cB}, Entity{}, Entity{})
 	W.create([]int{cB, cT}, Entity{}, Entity{})
 	W.create([]int{cA, cP}, Entity{}, Entity{})
+	W.standingFilters(false)
 	W.create([]int{cA, cP}, Entity{}, Entity{})
 	for i := 0; i < W.n; i++ {
 		W.havocValues(i)
@@ -71,6 +72,7 @@ func vShapeRel(capacity, pad int, withFree bool, emptied int) *vWorld {
 		p3 := W.create([]int{cA}, Entity{}, Entity{})
 		W.create([]int{cR1, cA}, W.e[p3].h, Entity{})
 	}
+	W.standingFilters(true)
 	// a populated zero-target table: bulk moves (target death, batch retargeting) then arrive
 	// in a destination that already holds rows
 	zc := W.create([]int{cR1, cA}, Entity{}, Entity{})
